@@ -157,7 +157,8 @@ Definition fetch_post (want : Z) (inp : bytes) (fl : Z) (f f' : fstate) : Prop :
   finv inp fl f' /\ f_left f' = f_left f /\ phi f' <= phi f /\
   (f_more f = true -> f_more f' = false -> phi f' < phi f) /\
   ~ (f_more f' = true /\ wlen (f_win f') <= 5 /\ wlen (f_win f') - f_left f' < want) /\
-  (f_more f' = true -> f_more f = true).
+  (f_more f' = true -> f_more f = true) /\
+  wlen (f_win f) <= wlen (f_win f').
 
 Lemma fetch_spec inp fl want fuel : forall f,
   finv inp fl f -> slen (f_s f) - pos (f_s f) + 1 < Z.of_nat fuel ->
@@ -186,9 +187,10 @@ Proof.
         - eapply Forall_wtok_mono; [|exact I4]. lia.
         - intros _. rewrite <- I1. unfold tok_at. splits; try assumption; lia. }
       eapply wp_conseq; [apply IH; [exact Hinv1|unfold f1, slen in *; cbn [f_s]; rewrite A; lia]|].
-      intros f' (P1 & P2 & P3 & P4 & P5 & P6). unfold fetch_post.
+      intros f' (P1 & P2 & P3 & P4 & P5 & P6 & P7). unfold fetch_post.
       assert (Hphi : phi f1 < phi f).
       { unfold phi, f1, slen in *. cbn [f_s f_win f_left f_more]. rewrite A, G1. cbn [b2z]. lia. }
+      unfold f1 in P7. cbn [f_win] in P7.
       splits; try assumption; try lia; try (intros _; exact G1).
     + (* any other token: appended *)
       set (f1 := mkF s1 (f_win f ++ [t]) (f_left f) true (set_cat (f_last f) x00)).
@@ -203,10 +205,11 @@ Proof.
         - constructor; [|constructor]. rewrite I1 in E2.
           eapply tok_at_wtok; [| |exact E2|exact Tc]; unfold slen in *; rewrite <- ?I1; lia. }
       eapply wp_conseq; [apply IH; [exact Hinv1|unfold f1, slen in *; cbn [f_s]; rewrite A; lia]|].
-      intros f' (P1 & P2 & P3 & P4 & P5 & P6). unfold fetch_post.
+      intros f' (P1 & P2 & P3 & P4 & P5 & P6 & P7). unfold fetch_post.
       assert (Hphi : phi f1 < phi f).
       { unfold phi, f1, slen in *. cbn [f_s f_win f_left f_more]. rewrite A, G1, wlen_app, rank_sum_app. cbn [b2z].
         pose proof (rank_range (t_cat t)). lia. }
+      unfold f1 in P7. cbn [f_win] in P7. rewrite wlen_app in P7.
       splits; try assumption; try lia; try (intros _; exact G1).
   - destruct (F eq_refl) as (F1 & F2).
     set (f1 := mkF s1 (f_win f) (f_left f) false (f_last f)).
@@ -223,4 +226,139 @@ Proof.
     cbn [fetch]. unfold f1 at 1. cbn [f_more andb]. apply wp_Ok. unfold fetch_post.
     splits; try assumption; try lia; try reflexivity.
     intros (X & _). unfold f1 in X. cbn [f_more] in X. discriminate X.
+Qed.
+
+(* ---------- the rewrite rules ---------- *)
+
+Definition step_ok (inp : bytes) (fl : Z) (bound : Z) (r : step_out) : Prop :=
+  match r with
+  | Continue f' => finv inp fl f' /\ phi f' < bound
+  | Return n f' => finv inp fl f' /\ 0 <= n <= wlen (f_win f')
+  end.
+
+Lemma Forall_firstn {A} (P : A -> Prop) n l : Forall P l -> Forall P (firstn n l).
+Proof. revert l. induction n as [|n IH]; intros [|x l] H; cbn; auto. inversion H; subst. constructor; auto. Qed.
+
+Lemma wtok_set_plain hi t c :
+  wtok hi t -> is_class c = true -> c <> cC -> c <> cF -> c <> cN -> c <> cBS -> wtok hi (set_cat t c).
+Proof.
+  unfold wtok, set_cat. cbn [t_val t_len t_cat t_pos]. intros (A & B & C & D & E & F) H1 H2 H3 H4 H5.
+  splits; try assumption; try lia; try contradiction. intros [G|G]; contradiction.
+Qed.
+
+Lemma wtok_set_fn hi t : wtok hi t -> 2 <= t_len t -> wtok hi (set_cat t cF).
+Proof.
+  unfold wtok, set_cat. cbn [t_val t_len t_cat t_pos]. intros (A & B & C & D & E & F) H.
+  splits; try assumption; try lia; try reflexivity; try discriminate. intros [G|G]; discriminate.
+Qed.
+
+Lemma wtok_set_num hi t : wtok hi t -> t_cat t = cBS -> wtok hi (set_cat t cN).
+Proof.
+  unfold wtok, set_cat. cbn [t_val t_len t_cat t_pos]. intros (A & B & C & D & E & F) H.
+  splits; try assumption; try lia; try reflexivity; try discriminate. intros _. apply F. right. exact H.
+Qed.
+
+Lemma cat_is_eq t c : cat_is t c = true -> t_cat t = c.
+Proof. unfold cat_is. apply beq_eq. Qed.
+
+Lemma nth_error_wlen (w : list token) i t : nth_error w (Z.to_nat i) = Some t -> 0 <= i -> i < wlen w.
+Proof. intros H Hi. apply nth_error_len in H. unfold wlen. lia. Qed.
+
+(* turn the boolean guards of the context into equations on classes *)
+Ltac cats :=
+  repeat match goal with
+         | H : _ && _ = true |- _ => apply andb_true_iff in H; destruct H
+         | H : cat_is ?t ?c = true |- _ => apply cat_is_eq in H
+         end.
+
+Ltac simp_f :=
+  unfold upd, bump_folds, set_stats in *;
+  cbn [f_s f_win f_left f_more f_last input flags pos st slen] in *.
+
+Ltac wlens :=
+  repeat first [ rewrite wlen_replace_nth | rewrite wlen_firstn by (rewrite ?wlen_replace_nth; lia) ].
+
+(* finv of an updated state: same scanner position, same last comment *)
+Lemma finv_upd inp fl f s' w' l' :
+  finv inp fl f ->
+  input s' = input (f_s f) -> flags s' = flags (f_s f) -> pos s' = pos (f_s f) ->
+  Forall (wtok (mark f)) w' -> 0 <= l' <= wlen w' -> wlen w' <= 6 ->
+  finv inp fl (upd f s' w' l').
+Proof.
+  intros (I1 & I2 & I3 & I4 & I5 & I6 & I7 & I8) E1 E2 E3 Hw Hl H6.
+  unfold finv, upd, mark, st_wf, slen in *. cbn [f_s f_win f_left f_last].
+  rewrite E1, E2, E3. splits; try assumption; try lia.
+Qed.
+
+Lemma phi_upd f s' w' l' :
+  input s' = input (f_s f) -> pos s' = pos (f_s f) ->
+  phi (upd f s' w' l') =
+  110 * (slen (f_s f) - pos (f_s f)) + b2z (f_more f) + 100 * wlen w' + 8 * (6 - l') + rank_sum w'.
+Proof. intros E1 E2. unfold phi, upd, slen. cbn [f_s f_win f_left f_more]. rewrite E1, E2. reflexivity. Qed.
+
+(* a rule that shortens the window always decreases the potential *)
+Lemma phi_shrink f s' w' l' :
+  input s' = input (f_s f) -> pos s' = pos (f_s f) ->
+  wlen w' < wlen (f_win f) -> 0 <= l' -> 0 <= f_left f <= wlen (f_win f) -> wlen (f_win f) <= 6 ->
+  phi (upd f s' w' l') < phi f.
+Proof.
+  intros E1 E2 H1 H2 H3 H4. rewrite phi_upd by assumption. unfold phi.
+  pose proof (rank_sum_range w'). pose proof (rank_sum_range (f_win f)). pose proof (wlen_nonneg w'). lia.
+Qed.
+
+Ltac clear_bool := repeat match goal with H : @eq bool _ _ |- _ => clear H end.
+Ltac wside := clear_bool; wlens; lia.
+
+Ltac rstep :=
+  lazymatch goal with
+  | |- wp (Ok _) _ => apply wp_Ok
+  | |- wp (bind (val_prefix _ ?t) _) _ =>
+      rewrite (val_prefix_ok _ t) by (match goal with H : wtok _ t |- _ => exact (proj1 H) end); cbn [bind]
+  | |- wp (bind (is_unary_op ?t) _) _ =>
+      let u := fresh "u" in let E := fresh "Eu" in
+      destruct (is_unary_op_total t) as [u E];
+      [ match goal with H : wtok _ t |- _ => exact (proj1 H) end | rewrite E; cbn [bind] ]
+  | |- wp (bind (is_arithmetic_op ?t) _) _ =>
+      let u := fresh "u" in let E := fresh "Eu" in
+      destruct (is_arithmetic_op_total t) as [u E];
+      [ match goal with H : wtok _ t |- _ => exact (proj1 H) end | rewrite E; cbn [bind] ]
+  | |- wp (bind _ _) _ => apply wp_bind
+  | |- wp (wset _ _ _ _) _ => apply (wp_wset (fun _ => True)); [ wside | ]
+  | |- wp (wtrunc _ _ _) _ => apply wp_wtrunc; [ wside | ]
+  | |- wp (if ?c then _ else _) _ => destruct c eqn:?
+  end.
+
+Ltac forall_w :=
+  repeat first [ apply Forall_firstn | apply Forall_replace_nth ]; try assumption.
+
+(* a leaf that shortens the window *)
+Ltac shrink_leaf :=
+  unfold step_ok; split;
+  [ apply finv_upd; [ assumption | reflexivity | reflexivity | reflexivity | forall_w | wside | wside ]
+  | apply phi_shrink; [ reflexivity | reflexivity | wside | wside | wside | wside ] ].
+
+Lemma rules3_spec inp fl f :
+  finv inp fl f -> 3 <= wlen (f_win f) - f_left f ->
+  wp (rules3 f) (step_ok inp fl (phi f)).
+Proof.
+  intros Hinv H3. pose proof Hinv as (I1 & I2 & I3 & I4 & I5 & I6 & I7 & I8).
+  unfold rules3.
+  apply wp_bind. eapply wp_wget; [exact I4|lia|]. intros a Ha Na.
+  apply wp_bind. eapply wp_wget; [exact I4|lia|]. intros b Hb Nb.
+  apply wp_bind. eapply wp_wget; [exact I4|lia|]. intros c Hc Nc.
+  cbv zeta.
+  repeat rstep.
+  all: try solve [shrink_leaf].
+  all: unfold step_ok; split.
+  all: try (apply finv_upd; [ assumption | reflexivity | reflexivity | reflexivity | forall_w | wside | wside ]).
+  all: try (apply wtok_set_plain; [ assumption | reflexivity | discriminate | discriminate | discriminate | discriminate ]).
+  all: rewrite phi_upd by reflexivity; unfold phi.
+  all: try (match goal with
+            | N : nth_error ?w ?i = Some ?x |- context [rank_sum (replace_nth ?w ?i _)] =>
+                rewrite (rank_sum_replace _ _ _ _ N); cats;
+                match goal with H : t_cat x = _ |- _ => rewrite H end
+            end;
+            unfold set_cat; cbn [t_cat];
+            change (rank cF) with 3; change (rank b_sqli_token_type_bare_word) with 5).
+  all: wlens; clear_bool; lia.
 Qed.
